@@ -1,6 +1,7 @@
 /- Decoding of generator specifications and the `permute` / `convert` / `gen` request kinds. -/
 import DriverLib.Json
 import Wheatley.Model.Gen
+import Wheatley.Lemmas.RoundTripG
 open Lean Wheatley
 
 namespace Drv
@@ -73,6 +74,23 @@ def handlePermute (j : Json) : R Json := do
   return jObj [("row", jRow (permute stage row places))]
 
 def jPlacesList (l : List Places) : Json := jArr (l.map jNats)
+
+/-- The notation of the round-trip theorem (`C02.notation_round_trip`): written out and denoted by the
+very definitions the theorem is about. -/
+def handleRoundTrip (j : Json) : R Json := do
+  let blocks ← asList (fun b => do
+    let pre ← strF b "pre"
+    let toks ← asList (fun t => do
+      match (← asArr t) with
+      | [k, x, y] =>
+        if (← asStr k) == "p" then return RoundTrip.Tok.pl (← asNats x)
+        else return RoundTrip.Tok.cross ((← asStr k).toList.headD 'x') (← asNat x) (← asNat y)
+      | _ => throw "token") (← fld b "toks")
+    match toks with
+    | t :: rest => return ({ pre := pre.toList.head?, first := t, rest := rest } : RoundTrip.Block)
+    | [] => throw "empty block") (← fld j "blocks")
+  return jObj [("text", Json.str (String.ofList (RoundTrip.textOf blocks))),
+               ("denote", jPlacesList (RoundTrip.denoteAll blocks))]
 
 def handleConvert (j : Json) : R Json := do
   let s ← charsF j "s"
